@@ -58,7 +58,7 @@ _E_ASSUME = ["hardware and UOD callbacks return values in their declared domains
 for _p, _profiles in {"C06": ["control"], "C07": ["control", "run", "holdpause"], "C08": ["control"], "C09": ["control"],
                       "C15": ["run", "control", "edit", "stoprestart", "cancelforce", "chaos", "exec"],
                       "C16": ["run", "control"], "C36": ["run", "control"],
-                      "C01": ["edit"], "C02": ["exec"], "C03": ["exec", "holdpause"], "C04": ["exec", "cancelforce"], "C05": ["exec", "stoprestart"],
+                      "C01": ["edit", "edit", "macroedit"], "C02": ["exec"], "C03": ["exec", "holdpause"], "C04": ["exec", "cancelforce"], "C05": ["exec", "stoprestart"],
                       "C10": ["stoprestart"], "C11": ["stoprestart", "exec", "inject"], "C12": ["cancelforce"],
                       "C13": ["chaos"], "C14": ["inject", "edit"], "C41": ["exec", "macroedit"], "C39": ["archive"], "C20": ["analyze"]}.items():
     _add(CheckSpec(property=_p, sim="sime", profiles=_profiles, runs_quick=3000, runs_thorough=300000,
